@@ -1,8 +1,28 @@
 #!/usr/bin/env python3
-"""Prints the markdown table of seeded changes from seeded/*/meta.json (for DESIGN.md section 8.2)."""
-import json, glob, os
-print("| seeded change | breaks | needs to manifest | caught by | missed before strengthening |")
-print("|---|---|---|---|---|")
+"""Regenerates section 8.2 of DESIGN.md from seeded/*/meta.json (python3 tools/seedtable.py)."""
+import json, glob, os, re
+rows = ["| seeded change | breaks | needs to manifest | caught by (quick tier) | missed before strengthening |", "|---|---|---|---|---|"]
+n = missed = 0
 for f in sorted(glob.glob('/verif/seeded/*/meta.json')):
-    m = json.load(open(f)); n = os.path.basename(os.path.dirname(f))
-    print(f"| `{n}` | {m['breaks_property']} | {m['needs_to_manifest']} | {', '.join(m['caught_by'])} | {', '.join(m['missed_before_strengthening']) or '-'} |")
+    m = json.load(open(f)); name = os.path.basename(os.path.dirname(f)); n += 1
+    if m['missed_before_strengthening']: missed += 1
+    rows.append(f"| `{name}` | {m['breaks_property']} | {m['needs_to_manifest']} | {', '.join(m['caught_by'])} | {', '.join(m['missed_before_strengthening']) or '-'} |")
+text = f"""### 8.2 Changes seeded by independent sub-agents
+
+Each change was produced by a fresh sub-agent that saw only the text of one property and a private
+git worktree (nothing from /verif), then confirmed here: the demonstration passes on the clean tree,
+the repository suite passes with the patch, the demonstration fails with the patch
+(`tools/seedverify.sh`); the patch was applied to /repo, the checks were run and /repo was restored
+(`tools/seedrun.sh`; `tools/seedregress.sh` repeats this for all stored seeds). {n} changes are stored
+under `seeded/`; {missed} of them were missed by the first version of the owning check and led to the
+strengthening described in their `meta.json` (`note`) and in section 7; all {n} are caught now.
+
+""" + "\n".join(rows) + "\n"
+p = '/verif/DESIGN.md'
+s = open(p).read()
+marker = '### 8.2 Changes seeded by independent sub-agents'
+if marker in s:
+    s = s[:s.index(marker)]
+s = s.rstrip() + "\n\n" + text
+open(p, 'w').write(s)
+print(n, 'seeds,', missed, 'missed at first')
